@@ -483,7 +483,18 @@ where
         let before_fp = generation.population().fp();
         probe.reset_step(injected.clone());
         let first_serial = probe.serials.load(Ordering::SeqCst);
-        let result = if cfg.parallel { generation.par_next() } else { generation.serial_next() };
+        // a panicking step is a violation in itself (the statement allows an error, not a panic)
+        let stepped = std::panic::catch_unwind(std::panic::AssertUnwindSafe(|| if cfg.parallel { generation.par_next() } else { generation.serial_next() }));
+        let result = match stepped {
+            Ok(r) => r,
+            Err(p) => {
+                let msg = p.downcast_ref::<String>().cloned().or_else(|| p.downcast_ref::<&str>().map(|s| (*s).to_string())).unwrap_or_else(|| "non-string panic payload".into());
+                let mode = if cfg.parallel { "par_next" } else { "serial_next" };
+                out.findings.push((format!("C09/{mode}/panic"), format!("stepping a population of {} panicked: {msg}", before.len())));
+                out.steps_run += 1;
+                return;
+            }
+        };
         let after = generation.population().children();
         let log = probe.log.lock().unwrap().clone();
         let next_serial = probe.serials.load(Ordering::SeqCst);
